@@ -211,9 +211,12 @@ impl<T: Clone + Ord, U: Paving> Paving for Dim<T, U> {
                 || range.end > *self.cuts.last().unwrap()
             {
                 // There is either no columns either an overlap before the
-                // first column or the last one. In these cases we just need
-                // to ensure the requested value is the default.
-                return *val == Self::Value::default();
+                // first column or the last one. The part that is not covered
+                // by any column holds the default value, other columns still
+                // have to be checked.
+                if *val != Self::Value::default() {
+                    return false;
+                }
             }
 
             for ((col_start, col_end), col_val) in self
